@@ -193,8 +193,12 @@ func genMutants(prog *load.Program, funcs map[*ast.FuncDecl]string) []mutant {
 	return out
 }
 
-func runSweep(prog *load.Program, propID string, selected []*core.Rule, base []core.Obligation, findings []core.Finding, limit, offset int) *sweepResult {
-	funcs := anchoredFuncs(prog, base)
+var maxSurvivors = 60
+
+func runSweep(prog *load.Program, propID string, selected []*core.Rule, base []core.Obligation, findings []core.Finding, limit, offset int, funcs map[*ast.FuncDecl]string) *sweepResult {
+	if funcs == nil {
+		funcs = anchoredFuncs(prog, base)
+	}
 	all := genMutants(prog, funcs)
 	res := &sweepResult{AnchoredFunctions: len(funcs), Candidates: len(all), ByOperator: map[string]any{}, KilledByRule: map[string]int{},
 		Note: "informational: single-point mutants of the functions this property's obligations are anchored in, applied in memory and re-type-checked; killed = the property's check would exit 1 on the mutant. Survivors are not violations."}
@@ -257,7 +261,7 @@ func runSweep(prog *load.Program, propID string, selected []*core.Rule, base []c
 						if (ob.Verdict == core.Violation || ob.Verdict == core.Lost) && !baseBad[ob.Key()] {
 							known := false
 							for _, f := range findings {
-								if f.Match(propID, ob) {
+								if f.Match(propID, ob) || (propID == "" && f.Status == "known" && f.Rule == ob.Rule && f.Construct == ob.Construct) {
 									known = true
 								}
 							}
@@ -303,7 +307,7 @@ func runSweep(prog *load.Program, propID string, selected []*core.Rule, base []c
 		default:
 			st.Survived++
 			res.Survived++
-			if len(res.Survivors) < 60 {
+			if len(res.Survivors) < maxSurvivors {
 				res.Survivors = append(res.Survivors, fmt.Sprintf("%s:%d %s [%s] %s", m.File, m.Line, m.Func, m.Op, m.Snippet))
 			}
 		}
@@ -315,4 +319,61 @@ func runSweep(prog *load.Program, propID string, selected []*core.Rule, base []c
 		res.KillRate = float64(res.Killed) / float64(c)
 	}
 	return res
+}
+
+// runSweepAll is a development aid (not registered in MANIFEST.json): mutate every function of the
+// files matching the comma-separated globs (relative to root) and run every rule of every property
+// on each mutant; survivors are the code the whole rule set does not constrain.
+func runSweepAll(root, verif, globs string, limit int, skipSpec bool) int {
+	prog, err := load.Load(root)
+	if err != nil {
+		fmt.Fprintln(os.Stderr, err)
+		return 2
+	}
+	var selected []*core.Rule
+	for _, r := range rules.All() {
+		if skipSpec && r.ID == "SPEC-MATCH" {
+			continue
+		}
+		selected = append(selected, r)
+	}
+	findings, _ := core.LoadFindings(filepath.Join(verif, "known_findings.json"))
+	var base []core.Obligation
+	for _, r := range selected {
+		base = append(base, core.RunRule(prog, r).Obs...)
+	}
+	funcs := map[*ast.FuncDecl]string{}
+	for _, pk := range prog.Sorted() {
+		for i, f := range pk.Files {
+			rel, err := filepath.Rel(prog.Root, pk.FileNames[i])
+			if err != nil {
+				continue
+			}
+			match := false
+			for _, g := range strings.Split(globs, ",") {
+				if ok, _ := filepath.Match(g, rel); ok {
+					match = true
+				}
+			}
+			if !match {
+				continue
+			}
+			for _, d := range f.Decls {
+				if fd, ok := d.(*ast.FuncDecl); ok && fd.Body != nil {
+					funcs[fd] = rel
+				}
+			}
+		}
+	}
+	maxSurvivors = 1 << 30
+	res := runSweep(prog, "", selected, base, findings, limit, 0, funcs)
+	fmt.Printf("sweep-all: %d functions, %d candidates, %d sampled: %d do not compile, %d killed, %d survived (%.0f%%)\n",
+		res.AnchoredFunctions, res.Candidates, res.Sampled, res.NotCompiling, res.Killed, res.Survived, 100*res.KillRate)
+	for k, v := range res.KilledByRule {
+		fmt.Printf("  killed-by %s %d\n", k, v)
+	}
+	for _, s := range res.Survivors {
+		fmt.Println("SURVIVOR", s)
+	}
+	return 0
 }
